@@ -983,6 +983,17 @@ Definition hash_scan_with (chk limited : bool) :=
 Definition hash_scan := hash_scan_with iter_scanner_checks_escapes nsec3_hash_scan_limited.
 
 (* ------------------------------------------------------------------ *)
+(* serde (T1: serde_modules_use_codecs, nsec3_serde_uses_text_entry_points):
+   with a human-readable format a value travels as its text (display /
+   decode, Display / FromStr); otherwise as its octets, which for Nsec3Salt and
+   OwnerHash come back in through from_octets (limit 255) *)
+Definition serde_octets_compact (bs : list N) : outcome (list N) := Ok bs.
+Definition salt_from_octets (bs : list N) : outcome (list N) :=
+  if over nsec3_salt_limit_inclusive nsec3_salt_max bs then Err E_TOOLONG else Ok bs.
+Definition hash_from_octets (bs : list N) : outcome (list N) :=
+  if over nsec3_hash_limit_inclusive nsec3_hash_max bs then Err E_TOOLONG else Ok bs.
+
+(* ------------------------------------------------------------------ *)
 (* RFC 4648 as bit regrouping (the specification; independent of the   *)
 (* shift/mask code and of the decode tables above)                      *)
 
@@ -1138,6 +1149,9 @@ Definition c18_sesym := scan_entry_symbols.
 Definition c18_smark := scan_opt_unknown_marker.
 Definition c18_encw64 (room : N) (bs : list N) := b64_display_w ([], room) bs.
 Definition c18_encw16 (room : N) (bs : list N) := b16_display_w ([], room) bs.
+Definition c18_serc := serde_octets_compact.
+Definition c18_saltcd := salt_from_octets.
+Definition c18_hashcd := hash_from_octets.
 Definition c18_conv64 := b64_convert.
 Definition c18_conv32 := b32_convert.
 Definition c18_conv16 := b16_convert.
